@@ -42,7 +42,17 @@ RULE = (
     "stack: rows == aggregate per sorted label computed by an independent loop, fold == counts, header means. "
     "Non-trivial = (cadzow/derank/svd: requested rank < full rank) or (savgol: irregular abscissae) or (venn: >= 2 "
     "chunks) or (stack: >= 2 labels with different folds) or (savgol_interp: at least one NaN gap) or (lp/rolling: "
-    "non-zero constant with window/padding active) or (traj: permuted trace order). Distinct = distinct case hash.")
+    "non-zero constant with window/padding active) or (traj: permuted trace order). Distinct = distinct case hash. "
+    "Every sub-property also draws (as case fields with class labels; absent in old corpus cases = the old behaviour): "
+    "the memory LAYOUT of each array argument (C, Fortran, view with steps of two, negative strides, read-only), its "
+    "TYPE (complex64/128 spectra, float32/64 data and abscissae, int64/uint64/int32/uint32/float64 spike samples, "
+    "int16/uint64 labels, lists where the docstring says list / array_like), the CALL FORM (documented keywords given, "
+    "left at their default, or positional: imax / niter, rank, pad, window_len / window, window / order / interp_kind, "
+    "fs / chunk_size / bin sizes, fcn_agg / header) and RE-USE: rep=1 calls again with the same argument objects, "
+    "rep=2 puts a call with other arguments of the same shapes in between (for cadzow / trajectory: the same probe with "
+    "the traces in reverse order); every repeated answer goes through the same oracle (kinds '<kind>.again'; for "
+    "random signals, where the property only fixes the length, the first answer is the reference: '*_repeat'), and "
+    "afterwards every argument must still equal the copy taken before the first call ('*_args_modified').")
 EXHAUSTIVE_NOTE = ("every full rectangular layout 1-4 x 4-40 (natural trace order) goes through cadzow.denoise at rank "
                    "1 (plane wave + noise) in the quick tier, and at rank full (random spectra) and every rank 1..full "
                    "(k = rank plane waves + noise) in the thorough tier; rolling_window: every window kind x odd length 3..51 x "
@@ -61,6 +71,21 @@ ASSUMPTIONS = [
     "non_uniform_savgol / smooth_interpolate_savgol with exactly `window` valid samples must either work or raise "
     "ValueError (the documented message says the data must be larger than the window)",
     "savgol tolerance is conditioning-scaled; cases with eps*cond^2 > 1e-4 are labelled illcond_skipped and not asserted",
+    "input kinds are limited to what the unchanged functions accept: lists only for rolling_window, non_uniform_savgol, "
+    "smooth_interpolate_savgol, the trace coordinates, the label vector and header columns of stack (lp, "
+    "svd_denoise_npx, cadzow.denoise, stack data and the spike arrays need .shape); window / polynom as Python int",
+    "arguments are expected to be left untouched by every function of this property: each of them builds its result "
+    "in a new array (np.zeros_like / np.copy / np.pad in the unchanged code), cadzow_np1 hands overlapping windows of "
+    "one spectrum to consecutive denoise calls, and memory-mapped recordings are read-only. Exceptions by design, not "
+    "asserted: stack adds the key 'stack_word' to the caller's header dictionary (only the caller's columns are "
+    "compared), rolling_window returns its input object for window_len < 3",
+    "single precision: where the function computes in single precision (SVD of float32 / complex64 data in derank and "
+    "svd_denoise_npx, lp of float32) the identity tolerance is 2e-4 / 1e-5 of max|input|; cadzow.denoise computes in "
+    "double precision and rounds the result to complex64 (1e-5); float32 abscissae / ordinates of the Savitzky-Golay "
+    "filter add eps32 * cond^2 * (2 + sqrt(window)) to its tolerance (mostly order 0-1 stay assertable); abscissae that "
+    "collapse in float32 (steps below 0.05) are outside the domain and handed over in double precision",
+    "a repeated call with the same arguments must give the same answer within 1e-12 (1e-5 for float32 lp) - the functions "
+    "are documented as pure computations; bit-identity is not demanded",
 ]
 BUDGET = {"quick": 3200, "thorough": 100000}
 SHRINK = {"quick": True, "thorough": True}
@@ -87,7 +112,7 @@ LAY2 = ["C", "C", "C", "F", "strided", "neg", "ro"]        # memory layout of a 
 LAY1 = ["C", "C", "C", "strided", "neg", "ro"]             # memory layout of a 1-D array argument
 REP = [0, 0, 0, 0, 1, 2]      # 0: one call; 1: second call with the SAME argument objects; 2: a call with other
 #                               arguments of the same shape in between (a cache filled by somebody else), then again
-REP_SLOW = [0, 0, 0, 0, 0, 0, 1, 2]                       # for the sub-properties that cost ~0.3 s per call
+REP_SLOW = [0] * 14 + [1, 2]    # for cadzow.denoise / trajectory (~0.3 s per call): 3 extra calls per 16 cases
 
 
 XY_KINDS = ["f8", "f8", "f8", "f4", "int", "list", "ro", "strided", "neg"]   # how the trace coordinates are handed over
@@ -256,7 +281,7 @@ def _st_venn(draw):
          "cdtype": draw(st.sampled_from(["i8", "i8", "i4", "u2", "f8"])),
          "arr": draw(st.sampled_from(["C", "C", "ro", "strided"])),
          "reuse": draw(st.sampled_from([True, True, False])),
-         "default_chunk": draw(st.booleans()), "fs_form": draw(st.sampled_from(["kw", "omit"]))}
+         "default_chunk": draw(st.integers(0, 3)) == 0, "fs_form": draw(st.sampled_from(["kw", "omit"]))}
     return c
 
 
@@ -402,7 +427,8 @@ def _fro(a):
 
 
 def _is_array(a, shape):
-    return isinstance(a, np.ndarray) and a.shape == tuple(shape)
+    """A numeric ndarray of that shape (the oracles do arithmetic on it)."""
+    return isinstance(a, np.ndarray) and a.shape == tuple(shape) and a.dtype.kind in "fciub"
 
 
 EPS32 = float(np.finfo(np.float32).eps)
@@ -926,6 +952,8 @@ def _run_rolling(case, ctx):
     sm = sut.smooth()
     n, wl, win, c = case["n"], case["wl"], case["window"], case["c"]
     layout, dts, plan, form = case.get("layout", "C"), case.get("dtype", "f8"), _plan(case), case.get("form", "kw")
+    if case["as_list"]:
+        layout, dts = "list", "f8"      # a list of Python floats has neither
     dt = np.float32 if dts == "f4" else np.float64
     if form in ("default_window", "default_all"):
         win = "blackman"                # documented defaults, left out of the call
@@ -1347,8 +1375,14 @@ def _run_venn(case, ctx):
         chunks.append(("any", tmax))            # the last spike sits exactly on the boundary of the second chunk
     if case.get("default_chunk", False):
         # chunk_size left out: 20 s of samples, more than any generated train, i.e. one chunk whose bins start at sample
-        # 0 like those of every chunk size that is a multiple of the bin
-        chunks.append(("default", None))
+        # 0 like those of every chunk size that is a multiple of the bin. The function allocates one counter per bin of
+        # the whole chunk and sorter: only taken where that stays below 1.5e6 bins (5e6 for one case in eight), which
+        # leaves out e.g. one-sample bins at 30 kHz over 96 channel bins (460 MB per sorter)
+        nbins = (20 * case["fs"] // tb + 1) * -(-case["nch"] // case["cbin"])
+        if nbins <= (5_000_000 if case["seed"] % 8 == 0 else 1_500_000):
+            chunks.append(("default", None))
+        else:
+            ctx.label("venn_default_chunk_too_large")
     if "reuse" in case:
         chunks.append(("one", chunk_one))       # once more after all the others: nothing may be left over from them
     ref = None
